@@ -170,8 +170,8 @@ Definition supported_only (T : tables) (I : install) (v : vw) : bool :=
   && forallb (fun x => in_tab x (t_all_cipher T) && cipher_available I x) (VG v F_cipherNames)
   && sub_tab (VG v F_macNames) (t_all_mac T)
   && (if ver_lt (maxVersion c) (3, 3) then sub_tab (VG v F_macNames) ["sha"; "md5"]%string else true)
-  && forallb (fun x => match x with VPair a b => in_range (minVersion c) (maxVersion c) a b | _ => false end)
-             (VG v F_versions)      (* `versions` inside [minVersion, maxVersion] *)
+  && forallb (fun x => match x with VPair a b => in_range (clip_lo (minVersion c)) (maxVersion c) a b | _ => false end)
+             (VG v F_versions)      (* `versions` inside [min(minVersion, (3,3)), maxVersion] *)
   && sub_tab (VG v F_keyExchangeNames) (t_kex T)
   && sub_tab (VG v F_certificateTypes) (t_certtypes T)
   && sub_tab (VG v F_eccCurves) (t_all_curves T) && sub_tab (VG v F_dhGroups) (t_all_dh T)
